@@ -927,10 +927,11 @@ Definition hi_len (t : string) (len : Z) : option Z :=
   if t == "format.Len() - 1" then Some (len - 1)%Z else None.
 Definition string_slices : list site17 :=
   filter (fun s => (st_fun s == "String") && (st_kind s == "slice")) chat_render_sites.
-(* exactly one slice, of the whole builder from 0, enclosed in a guard under which its high bound lies within
-   0 .. len: the slice expression cannot panic *)
+(* exactly one slice, of the whole builder from 0, enclosed in guards every one of which the leaf table
+   understands and under which its high bound lies within 0 .. len: the slice expression cannot panic *)
 Theorem string_slice_guarded :
   exists st, string_slices = [st] /\ st_x st = "format.String()" /\ st_lo st = "" /\ st_guards st <> []
+    /\ forallb (fun g => match guard_len g 0 with Some _ => true | None => false end) (st_guards st) = true
     /\ forall len, (0 <= len)%Z ->
          forallb (fun g => match guard_len g len with Some b => b | None => false end) (st_guards st) = true ->
          exists hi, hi_len (st_hi st) len = Some hi /\ (0 <= hi <= len)%Z.
